@@ -4,9 +4,12 @@
    Decision table over  signature x perturbation  (method behaviour and dispatch path are part of the observation and
    are quantified inside the table invariants / Conforms).
 
-     signature     sequence of <= MaxParams parameters  [t, d]:
+     signature     sequence of <= MaxParams parameters  [t, d]  with t drawn from the constant Types:
                      t  "i64" int | "i32" Annotated[int, ArrowType(int32)] | "f64" float | "str" | "oi64" Optional[int]
                         | "enum" (an Enum, dictionary-encoded string on the wire)
+                        | "bool" | "bytes" | "f32" Annotated[float, ArrowType(float32)] | "list" list[int]
+                        | "ostr" Optional[str] | "oenum" Optional[Enum] | "dc" (a serializable dataclass, IPC bytes on the
+                          wire)
                      d  the parameter has a default (defaults are trailing, as Python requires)
      perturbation  [op, i, j, t] applied to the request a correct client would send:
                      none | rename(i) | swap(i,j) | add (i = 0 front, 1 back) | drop(i) |
@@ -14,17 +17,24 @@
                                 other dictionary index width;  "other" = different family) |
                      nullflip(i)  (the field's nullable flag) |
                      null(i, "asis" = schema as declared, "honest" = the field is marked nullable as well) |
-                     enum_unknown(i)  (a string that names no member)
+                     badvalue(i)  (declared column, but the value cannot become the parameter's Python object: a string
+                                   that names no enum member, bytes that are no serialized dataclass) |
+                     dup(i, "same" | "other")  (an extra column at the end that re-uses parameter i's NAME, with its
+                                   type or another one -- name->value maps keep the last one) |
+                     dropall  (a request without any column)
 
    The oracle is the statement itself, on an abstract schema (sequence of [name, type, nullable]): the method runs
    iff the request schema EQUALS the declared one (names, order, types, nullability), every null sits in a nullable
-   (Optional) parameter, and every enum value names a member.  The table invariants then establish, for every
+   (Optional) parameter, and every value can become the parameter's Python object (enum member, dataclass).  The table invariants then establish, for every
    signature, which perturbations that admits: none, and a null in an Optional parameter -- nothing else.        *)
 EXTENDS Naturals, Sequences, FiniteSets
 
-CONSTANTS MaxParams
+CONSTANTS MaxParams,
+          Types          \* parameter kinds the signatures are built from (subset of AllTypes)
 
-Types == {"i64", "i32", "f64", "str", "oi64", "enum"}
+AllTypes == {"i64", "i32", "f64", "str", "oi64", "enum", "bool", "bytes", "f32", "list", "ostr", "oenum", "dc"}
+ASSUME Types \subseteq AllTypes
+Decodable == {"enum", "oenum", "dc"}          \* the wire value has to be turned into a Python object
 Param == [t : Types, d : BOOLEAN]
 SigsN(n) == {s \in [1..n -> Param] : \A i \in 1..(n - 1) : s[i].d => s[i + 1].d}
 Sigs == UNION {SigsN(n) : n \in 0..MaxParams}
@@ -40,12 +50,14 @@ Perts(s) ==
   \cup {P("retype", i, 0, t) : i \in 1..n, t \in {"widen", "other"}}
   \cup {P("nullflip", i, 0, "-") : i \in 1..n}
   \cup {P("null", i, 0, t) : i \in 1..n, t \in {"asis", "honest"}}
-  \cup {P("enum_unknown", i, 0, "-") : i \in {k \in 1..n : s[k].t = "enum"}}
+  \cup {P("badvalue", i, 0, "-") : i \in {k \in 1..n : s[k].t \in Decodable}}
+  \cup {P("dup", i, 0, t) : i \in 1..n, t \in {"same", "other"}}
+  \cup {P("dropall", 0, 0, "-") : x \in {1} \cap (IF n >= 2 THEN {1} ELSE {})}
 
 Cases == UNION {{[sig |-> s, p |-> p] : p \in Perts(s)} : s \in Sigs}
 
 \* ------------------------------------------------------------------ abstract schemas
-Nullable(t) == t = "oi64"
+Nullable(t) == t \in {"oi64", "ostr", "oenum"}
 Decl(s) == [i \in 1..Len(s) |-> [n |-> i, t |-> s[i].t, nl |-> Nullable(s[i].t)]]
 NewCol == [n |-> 99, t |-> "new", nl |-> TRUE]
 Req(c) ==
@@ -57,29 +69,31 @@ Req(c) ==
     [] p.op = "retype"   -> [d EXCEPT ![p.i].t = p.t]
     [] p.op = "nullflip" -> [d EXCEPT ![p.i].nl = ~@]
     [] p.op = "null" /\ p.t = "honest" -> [d EXCEPT ![p.i].nl = TRUE]
+    [] p.op = "dup"      -> Append(d, [n |-> p.i, t |-> (IF p.t = "same" THEN d[p.i].t ELSE "other"), nl |-> d[p.i].nl])
+    [] p.op = "dropall"  -> <<>>
     [] OTHER             -> d
 NullAt(c) == IF c.p.op = "null" THEN {c.p.i} ELSE {}
 
 \* the statement
 SchemaEqual(c)  == Req(c) = Decl(c.sig)
 NullsAllowed(c) == \A i \in NullAt(c) : Nullable(c.sig[i].t)
-EnumsKnown(c)   == c.p.op # "enum_unknown"
-Invoke(c) == SchemaEqual(c) /\ NullsAllowed(c) /\ EnumsKnown(c)
+ValuesDecode(c) == c.p.op # "badvalue"
+Invoke(c) == SchemaEqual(c) /\ NullsAllowed(c) /\ ValuesDecode(c)
 
 Reason(c) == IF Invoke(c) THEN "none"
-             ELSE IF ~SchemaEqual(c) THEN "schema" ELSE IF ~NullsAllowed(c) THEN "null" ELSE "enum"
+             ELSE IF ~SchemaEqual(c) THEN "schema" ELSE IF ~NullsAllowed(c) THEN "null" ELSE "value"
 
 Expected(c) == [invoke |-> Invoke(c), reason |-> Reason(c),
                 dropped_default |-> (c.p.op = "drop" /\ c.sig[c.p.i].d)]
 
 \* ------------------------------------------------------------------ table sanity (TLC, every case)
 OnlyIdentityAndOptionalNull(c) ==
-  Invoke(c) <=> (c.p.op = "none" \/ (c.p.op = "null" /\ c.sig[c.p.i].t = "oi64"))
+  Invoke(c) <=> (c.p.op = "none" \/ (c.p.op = "null" /\ Nullable(c.sig[c.p.i].t)))
 DefaultsNeverExcuse(c) ==                 \* dropping a defaulted parameter is refused like dropping a required one
-  c.p.op = "drop" => ~Invoke(c)
+  c.p.op \in {"drop", "dropall"} => ~Invoke(c)
 WideningNeverAdmitted(c) == c.p.op = "retype" => ~Invoke(c)
 EverySchemaChangeDetected(c) ==           \* every structural perturbation really changes the abstract schema
-  c.p.op \in {"rename", "swap", "add", "drop", "retype", "nullflip"} => ~SchemaEqual(c)
+  c.p.op \in {"rename", "swap", "add", "drop", "retype", "nullflip", "dup", "dropall"} => ~SchemaEqual(c)
 WellFormed(c) == /\ Len(c.sig) <= MaxParams
                  /\ \A i \in 1..(Len(c.sig) - 1) : c.sig[i].d => c.sig[i + 1].d
                  /\ IF c.p.op = "add" THEN c.p.i \in {0, 1}              \* (front / back flag, not a position)
@@ -88,7 +102,11 @@ WellFormed(c) == /\ Len(c.sig) <= MaxParams
 \* ------------------------------------------------------------------ judging what the real code did
 (* observation o:
      path     "sock_unary" | "sock_stream" | "http_unary" | "http_stream"
-     beh      what the method body does when it runs:  "ok" | "type_error" | "arrow_invalid"
+              | "sock_shm"   (socket unary; the request batch travels through a shared-memory pointer: the inline batch
+                              has the declared schema and no row, the perturbed batch is the one in the segment)
+              | "sock_ctx" | "http_ctx"   (unary method that also takes the framework-injected ctx parameter)
+     beh      what the method body does when it runs:  "ok" | "type_error" | "arrow_invalid" | "value_error" |
+              "key_error" | "version_error"  (raises TypeError / pa.ArrowInvalid / ValueError / KeyError / VersionError)
      ncalls   entries the implementation's invocation log gained
      args_ok  the logged arguments are exactly the values sent (None where a null was sent, the Enum member for an
               enum name)
@@ -96,8 +114,9 @@ WellFormed(c) == /\ Len(c.sig) <= MaxParams
      kind     "result" | "error" | "none"        what came back
      err      exception type carried by the error ("" if none)
      marker   (http) the X-VGI-RPC-Error marker header is present                                              *)
-Http(o) == o.path \in {"http_unary", "http_stream"}
-BehErr(b) == IF b = "type_error" THEN "TypeError" ELSE IF b = "arrow_invalid" THEN "ArrowInvalid" ELSE ""
+Http(o) == o.path \in {"http_unary", "http_stream", "http_ctx"}
+BehErr(b) == CASE b = "type_error" -> "TypeError" [] b = "arrow_invalid" -> "ArrowInvalid" [] b = "value_error" -> "ValueError"
+               [] b = "key_error" -> "KeyError" [] b = "version_error" -> "VersionError" [] OTHER -> ""
 
 NoDispatchOnMismatch(c, o) == ~Invoke(c) => o.ncalls = 0
 DispatchOnMatch(c, o)      == Invoke(c) => o.ncalls = 1
